@@ -8,11 +8,24 @@ and `return YowStack(<tuple>, reversed = <bool>)`.  That fragment is transcribed
 into the deep embedding of coq/C18/C18Model.v (texp / telem / stmt / fundef); its meaning is
 given there by an interpreter, and the theorems of coq/C18/C18ProofsDefaults.v are re-checked
 against the regenerated file on every run.  Anything outside the fragment raises
-TranslateError; the caller then writes a stub (no functions) so that the rest of the model
-still builds while every theorem about the helpers fails (tie broken).
+TranslateError.
+
+Robustness (design_notes/C18.md, "Translator robustness"): the helpers are total functions of a
+finite input space, so next to the syntactic transcription the real helpers are EVALUATED on the
+whole space in a fresh interpreter (harness/translators/stack_eval.py: every value is the first
+call of a process; later calls are compared with it).
+  * source shape recognised: the transcription is interpreted in Python (`_PyModel`, the same
+    semantics as the Coq interpreter) and must agree with the evaluated table on every
+    selection; the Gen file is the transcription, byte for byte as before;
+  * source shape not recognised: the Gen file is generated from the evaluated table (decision
+    trees over the flags whose leaves are the returned values);
+  * neither works (import error, a helper raising, a non-class entry, an unexpected parameter):
+    a stub (no functions) is written so that the rest of the model still builds while every
+    theorem about the helpers fails (tie broken).
 """
 import ast, os, fcntl
 from ..env import VERIF, REPO
+from . import stack_eval
 
 OUT = os.path.join(VERIF, "coq", "Gen", "C18Layers.v")
 HELPERS = ["getCoreLayers", "getProtocolLayers", "getDefaultLayers", "getDefaultStack"]
@@ -70,27 +83,27 @@ class _Tx(object):
         if name not in self.known:
             _fail(node, "unknown name %r" % name)
         self.n.vars.add(name)
-        return "v_" + name
+        return name
 
     def elem(self, e):
         if isinstance(e, ast.Name):
             if self.is_class(e.id):
                 self.n.classes.add(e.id)
-                return "LCls c_%s" % e.id
-            return "LVar %s" % self.var(e, e.id)
+                return ("cls", e.id)
+            return ("lvar", self.var(e, e.id))
         if isinstance(e, ast.Call) and isinstance(e.func, ast.Name) and e.func.id == "YowParallelLayer":
             if len(e.args) != 1 or e.keywords:
                 _fail(e, "YowParallelLayer(...) with unexpected arguments")
-            return "LPar (%s)" % self.exp(e.args[0])
+            return ("par", self.exp(e.args[0]))
         _fail(e, "unsupported tuple element %s" % ast.dump(e)[:80])
 
     def exp(self, e):
         if isinstance(e, ast.Name):
-            return "EVar %s" % self.var(e, e.id)
+            return ("var", self.var(e, e.id))
         if isinstance(e, ast.Tuple):
-            return "ETuple [%s]" % "; ".join(self.elem(x) for x in e.elts)
+            return ("tuple", [self.elem(x) for x in e.elts])
         if isinstance(e, ast.BinOp) and isinstance(e.op, ast.Add):
-            return "EAdd (%s) (%s)" % (self.exp(e.left), self.exp(e.right))
+            return ("add", self.exp(e.left), self.exp(e.right))
         if isinstance(e, ast.Subscript):
             s = e.slice
             ok = isinstance(s, ast.Slice) and s.lower is None and s.upper is None and (
@@ -99,7 +112,7 @@ class _Tx(object):
                 or (isinstance(s.step, ast.Constant) and s.step.value == -1))
             if not ok:
                 _fail(e, "unsupported subscript (only [::-1])")
-            return "ERev (%s)" % self.exp(e.value)
+            return ("rev", self.exp(e.value))
         if isinstance(e, ast.Call):
             f = e.func
             if not (isinstance(f, ast.Attribute) and isinstance(f.value, ast.Name)
@@ -114,8 +127,8 @@ class _Tx(object):
                 if k.arg is None or not isinstance(k.value, ast.Name):
                     _fail(e, "keyword argument is not name=name")
                 self.n.vars.add(k.arg)
-                kargs.append("(v_%s, %s)" % (k.arg, self.var(k.value, k.value.id)))
-            return "ECall f_%s [%s] [%s]" % (f.attr, "; ".join(pargs), "; ".join(kargs))
+                kargs.append((k.arg, self.var(k.value, k.value.id)))
+            return ("call", f.attr, pargs, kargs)
         _fail(e, "unsupported expression %s" % ast.dump(e)[:80])
 
     def stmts(self, body, rev_default):
@@ -128,16 +141,15 @@ class _Tx(object):
                     _fail(st, "unsupported assignment target")
                 rhs = self.exp(st.value)
                 self.known.add(st.targets[0].id)
-                out.append("SAssign %s (%s)" % (self.var(st, st.targets[0].id), rhs))
+                out.append(("assign", self.var(st, st.targets[0].id), rhs))
             elif isinstance(st, ast.AugAssign):
                 if not (isinstance(st.target, ast.Name) and isinstance(st.op, ast.Add)):
                     _fail(st, "unsupported augmented assignment")
-                out.append("SAug %s (%s)" % (self.var(st, st.target.id), self.exp(st.value)))
+                out.append(("aug", self.var(st, st.target.id), self.exp(st.value)))
             elif isinstance(st, ast.If):
                 if st.orelse or not isinstance(st.test, ast.Name):
                     _fail(st, "unsupported if (only `if <name>:` without else)")
-                out.append("SIf %s [%s]" % (self.var(st, st.test.id),
-                                            "; ".join(self.stmts(st.body, rev_default))))
+                out.append(("if", self.var(st, st.test.id), self.stmts(st.body, rev_default)))
             elif isinstance(st, ast.Return):
                 v = st.value
                 if isinstance(v, ast.Call) and isinstance(v.func, ast.Name) and v.func.id == "YowStack":
@@ -150,21 +162,62 @@ class _Tx(object):
                             rev = k.value.value
                         else:
                             _fail(st, "YowStack(...) keyword %r" % k.arg)
-                    out.append("SReturnStack (%s) %s" % (self.exp(v.args[0]), "true" if rev else "false"))
+                    out.append(("retstack", self.exp(v.args[0]), bool(rev)))
                 elif v is None:
                     _fail(st, "bare return")
                 else:
-                    out.append("SReturn (%s)" % self.exp(v))
+                    out.append(("ret", self.exp(v)))
             else:
                 _fail(st, "unsupported statement %s" % type(st).__name__)
         return out
 
 
+# ---- the intermediate form printed as Coq (deep embedding of coq/C18/C18Model.v)
+
+def coq_elem(l):
+    k = l[0]
+    if k == "cls":
+        return "LCls c_%s" % l[1]
+    if k == "par":
+        return "LPar (%s)" % coq_exp(l[1])
+    return "LVar v_%s" % l[1]
+
+
+def coq_exp(e):
+    k = e[0]
+    if k == "var":
+        return "EVar v_%s" % e[1]
+    if k == "tuple":
+        return "ETuple [%s]" % "; ".join(coq_elem(x) for x in e[1])
+    if k == "add":
+        return "EAdd (%s) (%s)" % (coq_exp(e[1]), coq_exp(e[2]))
+    if k == "rev":
+        return "ERev (%s)" % coq_exp(e[1])
+    return "ECall f_%s [%s] [%s]" % (e[1], "; ".join("v_" + a for a in e[2]),
+                                     "; ".join("(v_%s, v_%s)" % kv for kv in e[3]))
+
+
+def coq_stmt(s):
+    k = s[0]
+    if k == "assign":
+        return "SAssign v_%s (%s)" % (s[1], coq_exp(s[2]))
+    if k == "aug":
+        return "SAug v_%s (%s)" % (s[1], coq_exp(s[2]))
+    if k == "if":
+        return "SIf v_%s [%s]" % (s[1], "; ".join(coq_stmt(x) for x in s[2]))
+    if k == "ret":
+        return "SReturn (%s)" % coq_exp(s[1])
+    return "SReturnStack (%s) %s" % (coq_exp(s[1]), "true" if s[2] else "false")
+
+
+COQ_DEFAULT = {"true": "VBool true", "false": "VBool false", "none": "VLayer None"}
+
+
 def _const_value(node):
     if isinstance(node, ast.Constant) and isinstance(node.value, bool):
-        return "VBool %s" % ("true" if node.value else "false")
+        return "true" if node.value else "false"
     if isinstance(node, ast.Constant) and node.value is None:
-        return "VLayer None"
+        return "none"
     _fail(node, "parameter default is not True/False/None")
 
 
@@ -235,7 +288,7 @@ def translate(repo=None):
         params = []
         for x, d in zip(a.args, a.defaults):
             names.vars.add(x.arg)
-            params.append("(v_%s, %s)" % (x.arg, _const_value(d)))
+            params.append((x.arg, _const_value(d)))
         tx = _Tx(names, imp_stack, list(known) + [x.arg for x in a.args])
         body = tx.stmts(f.body, rev_default)
         funs.append((h, params, body))
@@ -249,7 +302,8 @@ def translate(repo=None):
         if r not in imp_stack:
             raise TranslateError("class %s is not imported by yowstack.py" % r)
     names.finish()
-    return _emit(names, gl, funs, ic, rev_default, True), _info(names, True, None)
+    ir = {"gl": gl, "funs": funs, "ic": ic, "rev_default": rev_default}
+    return _emit(names, gl, funs, ic, rev_default, True), _info(names, True, None), ir
 
 
 def _info(names, ok, err):
@@ -258,9 +312,12 @@ def _info(names, ok, err):
             "vars": dict(names.vid), "funs": dict(names.fid)}
 
 
-def _emit(names, gl, funs, ic, rev_default, ok):
-    o = ["(* GENERATED on every run by harness/translators/c18_layers.py from",
-         "   yowsup/stacks/yowstack.py and yowsup/stacks/__init__.py — do not edit. *)",
+HEADER = ["(* GENERATED on every run by harness/translators/c18_layers.py from",
+          "   yowsup/stacks/yowstack.py and yowsup/stacks/__init__.py — do not edit. *)"]
+
+
+def _emit(names, gl, funs, ic, rev_default, ok, header=None):
+    o = list(header or HEADER) + [
          "From YV Require Import Common.Tac C18.C18Model.",
          "Local Open Scope N_scope.", ""]
     for n, i in sorted(names.cid.items(), key=lambda x: x[1]):
@@ -275,19 +332,21 @@ def _emit(names, gl, funs, ic, rev_default, ok):
     o.append("")
     o.append("(* module-level tuple constants of yowstack.py, as statements in source order *)")
     o.append("Definition global_consts : list stmt := [")
-    o.append(";\n".join("  SAssign v_%s (%s)" % (n, e) for n, e in gl))
+    o.append(";\n".join("  SAssign v_%s (%s)" % (n, coq_exp(e)) for n, e in gl))
     o.append("].")
     o.append("")
     o.append("Definition funs : list (N * fundef) := [")
     fs = []
     for h, params, body in funs:
-        fs.append("  (f_%s, mkFun [%s]\n    [%s])" % (h, "; ".join(params), ";\n     ".join(body)))
+        fs.append("  (f_%s, mkFun [%s]\n    [%s])" % (
+            h, "; ".join("(v_%s, %s)" % (p, COQ_DEFAULT[d]) for p, d in params),
+            ";\n     ".join(coq_stmt(x) for x in body)))
     o.append(";\n".join(fs))
     o.append("].")
     o.append("")
     o.append("(* module-level tuple constants of yowsup/stacks/__init__.py, in source order *)")
     o.append("Definition init_consts : list stmt := [")
-    o.append(";\n".join("  SAssign v_%s (%s)" % (n, e) for n, e in ic))
+    o.append(";\n".join("  SAssign v_%s (%s)" % (n, coq_exp(e)) for n, e in ic))
     o.append("].")
     o.append("")
     return "\n".join(o)
@@ -319,18 +378,361 @@ class GenLock(object):
         self.f.close()
 
 
-def regenerate(repo=None, have_lock=False):
-    """Rewrite coq/Gen/C18Layers.v.  Returns info (ok flag, id tables).  Never raises:
-    on unrecognised source a stub without functions is written and info['ok'] is False."""
+# ------------------------------------------------------------------------------------------------
+# the transcription interpreted in Python (mirror of eval_exp / exec / call_fun in C18Model.v);
+# used only to compare the transcription with the evaluated table
+# ------------------------------------------------------------------------------------------------
+
+class _ModelErr(Exception):
+    pass
+
+
+TOP = stack_eval.TOP
+
+
+def _is_cls(x):
+    return isinstance(x, str) and x != TOP
+
+
+class _PyModel(object):
+    def __init__(self, ir):
+        self.funs = dict((h, (params, body)) for h, params, body in ir["funs"])
+        self.globals = {}
+        self.globals = self._consts(ir["gl"])
+        self.init = self._consts(ir["ic"])
+
+    def _consts(self, lst):
+        env, saved = {}, self.globals
+        self.globals = {}
+        try:
+            for name, e in lst:
+                env[name] = self.exp(env, e, 50)
+        finally:
+            self.globals = saved
+        return env
+
+    def lookup(self, env, v):
+        if v in env:
+            return env[v]
+        if v in self.globals:
+            return self.globals[v]
+        raise _ModelErr("unbound " + v)
+
+    def elem(self, env, l, fuel):
+        k = l[0]
+        if k == "cls":
+            return l[1]
+        if k == "par":
+            inner = self.exp(env, l[1], fuel)
+            if not all(_is_cls(x) for x in inner):
+                raise _ModelErr("group of non-classes")
+            return ["par", inner]
+        v = self.lookup(env, l[1])
+        if isinstance(v, tuple) and v[0] == "layer" and v[1] is not None:
+            return v[1]
+        if isinstance(v, list):
+            if not all(_is_cls(x) for x in v):
+                raise _ModelErr("group of non-classes")
+            return ["tup", list(v)]
+        raise _ModelErr("not a layer")
+
+    def exp(self, env, e, fuel):
+        if fuel <= 0:
+            raise _ModelErr("fuel")
+        k = e[0]
+        if k == "var":
+            v = self.lookup(env, e[1])
+            if not isinstance(v, list):
+                raise _ModelErr("not a tuple")
+            return list(v)
+        if k == "tuple":
+            return [self.elem(env, x, fuel - 1) for x in e[1]]
+        if k == "add":
+            return self.exp(env, e[1], fuel - 1) + self.exp(env, e[2], fuel - 1)
+        if k == "rev":
+            return self.exp(env, e[1], fuel - 1)[::-1]
+        pv = [self.lookup(env, a) for a in e[2]]
+        kv = [(kk, self.lookup(env, a)) for kk, a in e[3]]
+        r = self.call(e[1], pv, kv, fuel - 1)
+        if r[0] != "val":
+            raise _ModelErr("call does not return a tuple")
+        return r[1]
+
+    @staticmethod
+    def truthy(v):
+        if isinstance(v, bool):
+            return v
+        if isinstance(v, list):
+            return len(v) > 0
+        return v[1] is not None
+
+    def run(self, env, body, fuel):
+        for st in body:
+            k = st[0]
+            if k == "assign":
+                env[st[1]] = self.exp(env, st[2], fuel)
+            elif k == "aug":
+                old = self.lookup(env, st[1])
+                if not isinstance(old, list):
+                    raise _ModelErr("+= on a non-tuple")
+                env[st[1]] = old + self.exp(env, st[2], fuel)
+            elif k == "if":
+                if self.truthy(self.lookup(env, st[1])):
+                    r = self.run(env, st[2], fuel - 1)
+                    if r is not None:
+                        return r
+            elif k == "ret":
+                return ("val", self.exp(env, st[1], fuel))
+            else:
+                return ("stack", self.exp(env, st[1], fuel), st[2])
+        return None
+
+    def call(self, f, pargs, kargs, fuel=50):
+        if f not in self.funs or fuel <= 0:
+            raise _ModelErr("no function " + f)
+        params, body = self.funs[f]
+        if len(pargs) > len(params):
+            raise _ModelErr("TypeError: too many positional arguments")
+        env = dict((p[0], a) for p, a in zip(params, pargs))
+        for k, a in kargs:
+            if k not in [p[0] for p in params]:
+                raise _ModelErr("TypeError: unexpected keyword " + k)
+            if k in env:
+                raise _ModelErr("TypeError: multiple values for " + k)
+            env[k] = a
+        for n, d in params:
+            if n not in env:
+                env[n] = {"true": True, "false": False}.get(d, ("layer", None))
+        r = self.run(env, body, fuel)
+        if r is None:
+            raise _ModelErr("no return")
+        return r
+
+    def described(self, f, kw):
+        """call by keywords -> the same description stack_eval gives for the real helper"""
+        try:
+            r = self.call(f, [], list(kw.items()))
+        except (_ModelErr, RecursionError) as e:
+            return {"exc": "model: %s" % e}
+        if r[0] == "val":
+            return {"val": r[1]}
+        layout = r[1][::-1] if r[2] else r[1]
+        return {"val": [["par", x[1]] if isinstance(x, list) and x[0] == "tup" else x for x in layout]}
+
+
+def _agree(m, e):
+    if "exc" in m or "exc" in e:
+        return "exc" in m and "exc" in e
+    return "val" in e and m.get("val") == e["val"]
+
+
+def compare_with_table(ir, table):
+    """-> list of disagreements between the transcription and the evaluated helpers"""
+    pm = _PyModel(ir)
+    out = []
+
+    def chk(helper, kw, top, ev):
+        mkw = dict(kw)
+        if helper == "getDefaultStack":
+            mkw["layer"] = ("layer", None if top == "none" else TOP)
+        m = pm.described(helper, mkw)
+        if not _agree(m, ev):
+            out.append({"helper": helper, "selection": dict(kw, **({"layer": top} if helper == "getDefaultStack" else {})),
+                        "syntactic": m, "evaluated": ev})
+    chk("getCoreLayers", {}, "none", table.core)
+    for sel in stack_eval.SELECTIONS:
+        chk("getProtocolLayers", sel, "none", table.value("getProtocolLayers", sel))
+        chk("getDefaultLayers", sel, "none", table.value("getDefaultLayers", sel))
+        for top in stack_eval.TOPKINDS:
+            for ax in (False, True):
+                chk("getDefaultStack", dict(sel, axolotl=ax), top, table.value("getDefaultStack", sel, top, ax))
+    for h, params, _ in ir["funs"]:
+        ev = [(n, d) for n, d, _k in table.sig[h]]
+        if [tuple(x) for x in params] != ev:
+            out.append({"helper": h, "selection": "signature", "syntactic": params, "evaluated": ev})
+    if ir["rev_default"] != table.rev_default:
+        out.append({"helper": "YowStack.__init__", "selection": "default of reversed",
+                    "syntactic": ir["rev_default"], "evaluated": table.rev_default})
+    for key, env, lst in (("yowstack", pm.globals, ir["gl"]), ("init", pm.init, ir["ic"])):
+        evd = dict((n, d) for n, d in table.consts[key])
+        for name, _ in lst:
+            ev = evd.get(name)
+            if ev is None or ev.get("type") != "tuple" or ev.get("val") != env.get(name):
+                out.append({"helper": "constant " + name, "selection": key, "syntactic": env.get(name), "evaluated": ev})
+    return out
+
+
+# ------------------------------------------------------------------------------------------------
+# the Gen file from the evaluated table (source shape not recognised)
+# ------------------------------------------------------------------------------------------------
+
+EXPECT_PARAMS = {"getCoreLayers": (), "getProtocolLayers": stack_eval.FLAGS, "getDefaultLayers": stack_eval.FLAGS,
+                 "getDefaultStack": ("layer", "axolotl") + stack_eval.FLAGS}
+
+
+def _usable(what, res):
+    if "exc" in res:
+        raise TranslateError("%s raised %s" % (what, res["exc"]))
+    bad = stack_eval.bad_entries(res)
+    if bad:
+        raise TranslateError("%s: %s" % (what, "; ".join(bad)))
+    return res["val"]
+
+
+def _elems(what, items, names, consts=None):
+    out = []
+    for x in items:
+        if x == TOP:
+            out.append(("lvar", "layer"))
+        elif isinstance(x, str):
+            names.classes.add(x)
+            out.append(("cls", x))
+        elif x[0] == "par" and all(_is_cls(y) for y in x[1]):
+            names.classes.update(x[1])
+            out.append(("par", ("tuple", [("cls", y) for y in x[1]])))
+        elif x[0] == "tup" and consts is not None and all(_is_cls(y) for y in x[1]):
+            hit = [n for n, v in consts if v == x[1]]
+            if not hit:
+                raise TranslateError("%s: a nested tuple that is not one of the earlier constants" % what)
+            out.append(("lvar", hit[-1]))
+        else:
+            raise TranslateError("%s: entry %r cannot be expressed" % (what, x))
+    return out
+
+
+def _tree(vars_, leaf, asg):
+    if not vars_:
+        return [leaf(asg)]
+    v = vars_[0]
+    t = _tree(vars_[1:], leaf, dict(asg, **{v: True}))
+    f = _tree(vars_[1:], leaf, dict(asg, **{v: False}))
+    if t == f:
+        return f
+    return [("if", v, t)] + f
+
+
+def from_table(table, reason):
+    """IR + text from the evaluated helpers; TranslateError when the table cannot be used"""
+    names = _Names()
+    if not isinstance(table.rev_default, bool):
+        raise TranslateError("YowStack.__init__ has no boolean default for `reversed`")
+    funs = []
+    for h in HELPERS:
+        ps = table.sig[h]
+        if sorted(p[0] for p in ps) != sorted(EXPECT_PARAMS[h]):
+            raise TranslateError("%s: parameters %r, expected exactly %r (the evaluated input space is these flags)"
+                                 % (h, [p[0] for p in ps], list(EXPECT_PARAMS[h])))
+        for n, d, kind_ok in ps:
+            if not kind_ok or d not in COQ_DEFAULT:
+                raise TranslateError("%s: parameter %s is not a plain parameter with a True/False/None default" % (h, n))
+            names.vars.add(n)
+    sel_of = lambda a: dict((f, a[f]) for f in stack_eval.FLAGS)
+
+    def label(h, a, top="none"):
+        return stack_eval.call_label([h, a, top])
+    core = _usable("getCoreLayers()", table.core)
+    funs.append(("getCoreLayers", [], [("ret", ("tuple", _elems("getCoreLayers()", core, names)))]))
+    for h in ("getProtocolLayers", "getDefaultLayers"):
+        def leaf(a, h=h):
+            v = _usable(label(h, a), table.value(h, sel_of(a)))
+            return ("ret", ("tuple", _elems(label(h, a), v, names)))
+        funs.append((h, [(n, d) for n, d, _ in table.sig[h]], _tree(list(stack_eval.FLAGS), leaf, {})))
+
+    def sleaf(a):
+        sel = sel_of(a)
+        if a["layer"]:
+            vc = _usable(label("getDefaultStack", a, "class"), table.value("getDefaultStack", sel, "class", a["axolotl"]))
+            vi = _usable(label("getDefaultStack", a, "instance"),
+                         table.value("getDefaultStack", sel, "instance", a["axolotl"]))
+            if vc != vi:
+                raise TranslateError("getDefaultStack treats a layer class and a layer instance differently: %s"
+                                     % label("getDefaultStack", a, "class"))
+            v = vc
+        else:
+            v = _usable(label("getDefaultStack", a), table.value("getDefaultStack", sel, "none", a["axolotl"]))
+        # the value is the wired stack, bottom first = the spec handed to YowStack(..., reversed = False)
+        return ("retstack", ("tuple", _elems(label("getDefaultStack", a), v, names)), False)
+    funs.append(("getDefaultStack", [(n, d) for n, d, _ in table.sig["getDefaultStack"]],
+                 _tree(["layer", "axolotl"] + list(stack_eval.FLAGS), sleaf, {})))
+    lists = {}
+    for key in ("yowstack", "init"):
+        out, seen = [], []
+        for name, d in table.consts[key]:
+            v = _usable("constant " + name, d)
+            out.append((name, ("tuple", _elems("constant " + name, v, names, consts=seen))))
+            seen.append((name, v))
+            names.vars.add(name)
+        lists[key] = out
+    have = [n for n, _ in lists["yowstack"]] + [n for n, _ in lists["init"]]
+    for r in REQ_VARS:
+        if r.isupper() and r not in have:
+            raise TranslateError("constant %s not found" % r)
+    names.finish()
+    why = str(reason).replace("(*", "( *").replace("*)", "* )")
+    header = ["(* GENERATED on every run by harness/translators/c18_layers.py — do not edit.",
+              "   EVALUATED TABLE.  The shape of yowsup/stacks/yowstack.py / stacks/__init__.py is not one the",
+              "   syntactic transcription recognises (%s)." % why,
+              "   The function bodies below are decision trees over the flags; every leaf is the value the real",
+              "   helper returned as the first call of a fresh process (harness/translators/stack_eval.py). *)"]
+    ir = {"gl": lists["yowstack"], "funs": funs, "ic": lists["init"], "rev_default": table.rev_default}
+    return _emit(names, ir["gl"], funs, ir["ic"], table.rev_default, True, header), _info(names, True, None), ir
+
+
+def regenerate(repo=None, have_lock=False, scratch=None):
+    """Rewrite coq/Gen/C18Layers.v.  Returns info (ok flag, id tables, which path produced the
+    file, disagreements, call-history findings).  Never raises: when neither the transcription
+    nor the evaluated table is usable a stub without functions is written and info['ok'] is False."""
     if not have_lock:
         with GenLock():
-            return regenerate(repo, True)
-    try:
-        text, info = translate(repo)
-    except (TranslateError, SyntaxError, OSError) as e:
-        names = _Names()
-        names.finish()
-        _write(_emit(names, [], [], [], True, False))
-        return _info(names, False, "%s: %s" % (type(e).__name__, e))
+            return regenerate(repo, True, scratch)
+    text, info = analyse(repo, scratch)
     _write(text)
     return info
+
+
+def analyse(repo=None, scratch=None):
+    """(text of the Gen file, info) without writing anything"""
+    repo = repo or REPO
+    syn = table = None
+    syn_err = ev_err = None
+    try:
+        syn = translate(repo)
+    except (TranslateError, SyntaxError, OSError) as e:
+        syn_err = "%s: %s" % (type(e).__name__, e)
+    try:
+        table = stack_eval.evaluate(repo, scratch)
+    except stack_eval.EvalError as e:
+        ev_err = str(e)
+    extra = {"tie_problems": [], "history_findings": [], "eval": None}
+    if table is not None:
+        extra["history_findings"] = table.history_findings
+        extra["eval"] = {"first_calls_each_in_its_own_process": table.n_calls,
+                         "calls_in_histories": table.n_history_calls,
+                         "history_dependent_results": len(table.history_findings), "wall_s": table.wall_s}
+    if syn is not None:
+        text, info, ir = syn
+        info.update(extra)
+        if table is None:
+            info["path"] = "syntactic only (EVALUATION FAILED: %s)" % ev_err
+            info["tie_problems"].append(("translator:c18_layers.evaluation", {"detail": ev_err}))
+        else:
+            dis = compare_with_table(ir, table)
+            info["path"] = "syntactic+evaluated (agree)" if not dis else \
+                "syntactic+evaluated (DISAGREE on %d points)" % len(dis)
+            info["tie_problems"] += [("translator:c18_layers.syntactic-vs-evaluated", d) for d in dis]
+        return text, info
+    if table is not None:
+        try:
+            text, info, ir = from_table(table, syn_err)
+            info.update(extra)
+            info["path"] = "evaluated only (source shape not recognised: %s)" % syn_err
+            return text, info
+        except TranslateError as e:
+            ev_err = "evaluated table not usable: %s" % e
+    names = _Names()
+    names.finish()
+    text = _emit(names, [], [], [], True, False)
+    info = _info(names, False, "syntactic: %s; evaluated: %s" % (syn_err, ev_err))
+    info.update(extra)
+    info["path"] = "none (neither the transcription nor the evaluation is usable)"
+    return text, info
